@@ -20,7 +20,13 @@ RULE = ("(i) every string of length <= L over the parser's 27 significant charac
         "character), and seeded random lists up to length 8 with random text: written by the Lean specification writer in "
         "dot and forward-slash notation, parsed by the REAL parser, compared with the list; the written text then goes through "
         "(i).  (iii) == on pairs of written lists (equal iff the lists are equal).  (iv) append / + / pop on written paths "
-        "(pop returns the appended segment and restores text and segments).  (v) ensure_escaped / escape_path_section / "
+        "(pop returns the appended segment and restores text and segments).  (iv-b) search segments whose term is written between "
+        "quotation marks (every operator but the regular expression, inverted or not, both quote kinds, both notations; the empty term, "
+        "every one- and two-character term over blank / separators / punctuation, longer ones): parse = the segments, == the "
+        "escape-written spelling, then (i).  (iv-c) sequences on ONE path object: 1-4 steps of reading escaped / unescaped / str / len "
+        "and switching the separator to DOT / FSLASH; after every step, judged against the written list with fresh objects only: str "
+        "re-parses to the list, ==/!= with its own text, its canonical string, fresh parses of both (both operand orders) and a "
+        "different list, the copy YAMLPath(p), p + segment and pop() on the sum.  (v) ensure_escaped / escape_path_section / "
         "strip_path_prefix and the finite tables (operator, keyword, collector spellings, escape lists) against the live "
         "objects.  distinct_nontrivial = distinct segment lists of >= 2 segments (or texts parsing to >= 2 segments) whose "
         "round trip was checked on the real code.")
@@ -390,6 +396,206 @@ def quoted_chunk(cases):
     return stats, (viol + v2)[:40], d2, sm
 
 
+# --------------------------------------------------------------------------- search terms written with demarcation
+
+QTERM_CHARS = ['a', '1', ' ', '.', '/', '-', '_', ':', ',']
+
+
+def quoted_search_cases(rng, n_random):
+    """SEARCH segments whose TERM is written between quotation marks (the documented demarcation) instead of with
+    escapes: every operator x inverted x quote kind x notation, terms = the empty term, every one- and two-character
+    text over QTERM_CHARS (blank, separators, punctuation the quotes protect), some longer ones; alone, after and
+    before an ordinary key.  Returns (expected segments, form, text)."""
+    from yamlpath.enums import PathSearchMethods
+    terms = [""] + QTERM_CHARS + [a + b for a in QTERM_CHARS for b in QTERM_CHARS] + ["a b c", " a ", "x.y/z", "   ", "a/b.c d"]
+    for _ in range(n_random):
+        terms.append("".join(rng.choice(QTERM_CHARS) for _ in range(rng.randint(3, 8))))
+    attrs = [".", "a", "k1", "a_b"]
+    out = []
+    i = 0
+    for m in METHODS:
+        if m == "REGEX":
+            continue    # a regular expression is demarcated by its own delimiter (written by the Lean writer)
+        op = str(PathSearchMethods[m])
+        for inv in (False, True):
+            for term in terms:
+                for q in ("'", '"'):
+                    for form in ("dot", "fslash"):
+                        i += 1
+                        attr = attrs[i % len(attrs)]
+                        seg_t = "[%s%s%s%s%s%s]" % (attr, "!" if inv else "", op, q, term, q)
+                        before = [[], ["k"], []][i % 3]
+                        after = [[], [], ["z"]][(i // 3) % 3]
+                        segs = [key(k) for k in before] + [search(inv, m, attr, term)] + [key(k) for k in after]
+                        sep = "." if form == "dot" else "/"
+                        text = ("/" if form == "fslash" else "") + "".join(before) + seg_t + "".join(sep + k for k in after)
+                        out.append((segs, form, text))
+    return out
+
+
+def qsearch_chunk(cases):
+    from yamlpath import YAMLPath
+    drv = core.Driver()
+    model = drv.ask([{"op": "C08.segs", "segs": segs} for segs, _, _ in cases])
+    stats = new_stats()
+    viol, follow = [], []
+    for (segs, form, text), mo in zip(cases, model):
+        stats["n"] += 1
+        if not mo["wf"]:
+            stats["nonwf_lists"] += 1
+            continue
+        case = {"kind": "qsearch", "segs": segs, "form": form, "text": text}
+        im = impl_parse_esc(text)
+        if norm(im) != {"ok": segs}:
+            viol.append(("parse-demarcated-term:%s:%s" % (form, seg_kinds(segs)),
+                         "segments %s with the search term written between quotation marks, %r, parse to %s" % (
+                             json.dumps(segs), text, json.dumps(norm(im))), case))
+            continue
+        # the same segments written with escapes (Lean writer) compare equal
+        bad = False
+        for bform, bare in (("dot", mo["wd"]), ("fslash", mo["wf_"])):
+            if bform == "dot" and not mo["dotx"]:
+                continue
+            stats["eqpairs"] += 1
+            e1 = _guard(lambda: _out(lambda: bool(YAMLPath(text) == YAMLPath(bare))))
+            e2 = _guard(lambda: _out(lambda: bool(YAMLPath(bare) != text)))
+            if norm(e1) != {"ok": True} or norm(e2) != {"ok": False}:
+                viol.append(("eq:demarcated-term-vs-%s:%s" % (bform, seg_kinds(segs)),
+                             "YAMLPath(%r) == YAMLPath(%r) is %s (!= is %s) although both spell %s" % (
+                                 text, bare, json.dumps(norm(e1)), json.dumps(norm(e2)), json.dumps(segs)), dict(case, other=bare)))
+                bad = True
+                break
+        if not bad:
+            follow.append(text)
+    st2, v2, d2, sm = text_chunk(follow, origin="quoted")
+    for k in ("out_of_model", "roundtrip", "dot_excluded", "nontrivial"):
+        stats[k] += st2[k]
+    return stats, (viol + v2)[:40], d2, sm
+
+
+# --------------------------------------------------------------------------- sequences on one path object
+
+SEQ_STEPS = ["esc", "unesc", "str", "len", "dot", "fslash", "dot", "fslash"]
+
+
+def seq_chunk(cases):
+    """cases: (segs, other segs, appended segment, form, steps).  One YAMLPath object is taken through `steps`
+    (reading its caches, switching its separator to obtain the canonical string in either notation); after every
+    step the clauses are judged on THAT object against the written list (the oracle; fresh objects only):
+    its canonical string re-parses to the list; it compares equal to its own text, to its canonical string and to a
+    fresh parse of either (both operand orders, != the opposite) and unequal to a different list; a copy
+    YAMLPath(p) has the list's segments; p + segment has the list's segments followed by the segment, and pop() on
+    that restores the list."""
+    from yamlpath import YAMLPath
+    from yamlpath.enums import PathSeparators
+    drv = core.Driver()
+    flat = []
+    for segs, other, seg, form, steps in cases:
+        flat += [segs, other, [seg], segs + [seg]]
+    model = drv.ask([{"op": "C08.segs", "segs": x} for x in flat])
+    stats = new_stats()
+    viol = []
+    for i, (segs, other, seg, form, steps) in enumerate(cases):
+        mb, mo_, ms, mall = model[4 * i: 4 * i + 4]
+        if not (mb["wf"] and mo_["wf"] and ms["wf"] and mall["wf"] and mb["dotx"] and mo_["dotx"] and ms["dotx"] and mall["dotx"]):
+            stats["nonwf_lists"] += 1
+            continue
+        if not segs:
+            continue
+        t = mb["wd"] if form == "dot" else mb["wf_"]
+        t_other = mo_["wf_"]
+        st = None
+        if "ok" in ms["rd"] and "ok" in ms["rf"] and ms["rd"]["ok"] == ms["rf"]["ok"][1:]:
+            st = ms["rd"]["ok"]     # a segment text that reads the same in both notations
+            if seg[0] == "ANCHOR" and segs[-1][0] == "COLLECTOR" and seg[1][:1] in ("+", "-", "&"):
+                st = None
+        stats["n"] += 1
+        case = {"kind": "seq", "segs": segs, "other": other, "seg": seg, "form": form, "steps": steps, "text": t}
+        kinds = seg_kinds(segs)
+
+        def judge(p, done):
+            """None or (signature, what)."""
+            where = "after %s on YAMLPath(%r)" % (" -> ".join(done) or "construction", t)
+            canon = _out(lambda: str(p))
+            if "ok" not in canon:
+                return ("seq:str-fails:" + kinds, "str() raises %s %s" % (json.dumps(norm(canon)), where))
+            c = canon["ok"]
+            if p.separator is PathSeparators.DOT and c[:1] == "/":
+                return None      # not a dot-notation text by the notation's own definition
+            re_ = _out(lambda: codec.segs_to_json(list(YAMLPath(c).escaped)))
+            if norm(re_) != {"ok": segs}:
+                return ("seq:reparse:" + kinds, "str() is %r %s; it re-parses to %s, not %s" % (c, where, json.dumps(norm(re_)), json.dumps(segs)))
+            for nm, f, want in (("p==YAMLPath(str(p))", lambda: p == YAMLPath(c), True), ("YAMLPath(str(p))==p", lambda: YAMLPath(c) == p, True),
+                                ("p==text", lambda: p == t, True), ("p==str(p)", lambda: p == c, True),
+                                ("YAMLPath(text)==p", lambda: YAMLPath(t) == p, True),
+                                ("p!=YAMLPath(str(p))", lambda: p != YAMLPath(c), False),
+                                ("p==other", lambda: p == YAMLPath(t_other), segs == other),
+                                ("p!=other", lambda: p != t_other, segs != other)):
+                r = _out(lambda: bool(f()))
+                if norm(r) != {"ok": want}:
+                    return ("seq:eq:%s:%s" % (nm, kinds), "%s is %s (expected %s) %s; str(p) = %r, segments %s%s" % (
+                        nm, json.dumps(norm(r)), want, where, c, json.dumps(segs), (", other = %r" % t_other) if "other" in nm else ""))
+            r = _out(lambda: codec.segs_to_json(list(YAMLPath(p).escaped)))
+            if norm(r) != {"ok": segs}:
+                return ("seq:copy:" + kinds, "the copy YAMLPath(p) has segments %s, not %s, %s" % (json.dumps(norm(r)), json.dumps(segs), where))
+            if st is not None:
+                def addpop():
+                    q = p + st
+                    a = codec.segs_to_json(list(q.escaped))
+                    popped = codec.seg_to_json(q.pop())
+                    return {"app": a, "text": q.original, "after": codec.segs_to_json(list(q.escaped))}
+                r = _out(addpop)
+                if "ok" not in r or r["ok"]["app"] != segs + [seg]:
+                    return ("seq:add:" + seg_kinds([seg]), "p + %r gives %s, not the segments %s followed by %s, %s" % (
+                        st, json.dumps(norm(r)), json.dumps(segs), json.dumps(seg), where))
+                if r["ok"]["after"] != segs:
+                    return ("seq:add-pop:" + seg_kinds([seg]), "(p + %r).pop() leaves %s, not %s, %s" % (st, json.dumps(r["ok"]["after"]), json.dumps(segs), where))
+            return None
+
+        def go():
+            p = YAMLPath(t)
+            done = []
+            bad = judge(p, done)
+            if bad:
+                return bad
+            switched = esc_cached = False
+            for step in steps:
+                if step in ("esc", "len") and switched and not esc_cached:
+                    # pinned behaviour, not judged here (see notes/C08.md): the first read of .escaped AFTER a separator
+                    # switch parses the original text under the new separator
+                    continue
+                esc_cached = esc_cached or step in ("esc", "len")
+                switched = switched or step in ("dot", "fslash")
+                if step == "esc":
+                    p.escaped
+                elif step == "unesc":
+                    p.unescaped
+                elif step == "str":
+                    str(p)
+                elif step == "len":
+                    len(p)
+                elif step == "dot":
+                    p.separator = PathSeparators.DOT
+                else:
+                    p.separator = PathSeparators.FSLASH
+                done.append({"dot": "separator=DOT", "fslash": "separator=FSLASH"}.get(step, step))
+                bad = judge(p, done)
+                if bad:
+                    return bad
+            return None
+        res = _guard(lambda: _out(go), 20.0)
+        stats["appendpop"] += 1
+        if "timeout" in res:
+            viol.append(("timeout", "sequence on %r did not finish" % t, case))
+        elif "crash" in res:
+            viol.append(("crash:%s@%s" % (res["crash"], res.get("site")), "sequence %s on YAMLPath(%r) raised %s" % (steps, t, res["crash"]), case))
+        elif "ypath" in res:
+            viol.append(("seq:ypath:" + kinds, "sequence %s on YAMLPath(%r) raised a YAML Path error although the text parses" % (steps, t), case))
+        elif res["ok"]:
+            viol.append((res["ok"][0], res["ok"][1], case))
+    return stats, viol[:40], [], []
+
+
 def impl_parse_esc(t):
     from yamlpath import YAMLPath
     return _guard(lambda: _out(lambda: codec.segs_to_json(list(YAMLPath(t).escaped))))
@@ -690,6 +896,10 @@ def _job(job):
         return appendpop_chunk(job[1])
     if kind == "MISC":
         return misc_chunk(job[1])
+    if kind == "QSEARCH":
+        return qsearch_chunk(job[1])
+    if kind == "SEQ":
+        return seq_chunk(job[1])
     raise ValueError(kind)
 
 
@@ -723,6 +933,10 @@ def run(chk: core.Check):
             jobs = [("MISC", [("strip", c["text"], c["prefix"])])]
         elif kind == "pop":
             jobs = [("MISC", [("pop", c["text"], c["to"])])]
+        elif kind == "qsearch":
+            jobs = [("QSEARCH", [(c["segs"], c["form"], c["text"])])]
+        elif kind == "seq":
+            jobs = [("SEQ", [(c["segs"], c["other"], c["seg"], c["form"], c["steps"])])]
         else:
             jobs = [("TEXTS", [c["text"]])]
             print("replay:", json.dumps({"text": c["text"], "impl": impl_text(c["text"]),
@@ -752,6 +966,18 @@ def run(chk: core.Check):
         rl = [random_segs(rng) for _ in range(nlists)]
         jobs += [("SEGS", c, True) for c in core.chunked(rl, 64)]
         jobs += [("QUOTED", c) for c in core.chunked(quoted_texts(rng, 2000 if tier == "quick" else 40000), 32)]
+        jobs += [("QSEARCH", c) for c in core.chunked(quoted_search_cases(rng, 10 if tier == "quick" else 200), 32)]
+        # (ii-b) sequences on one object: caches read, separator switched, then ==, !=, copy, +, pop
+        simple = [s_ for s_ in pv if s_[0] in ("KEY", "INDEX", "SEARCH", "KEYWORD_SEARCH", "ANCHOR")]
+        seqs = []
+        seq_pool = [[s_] for s_ in pv] + [[key("a"), key("b"), key("c")], [key("a"), key("b.c")], [key("a/b"), ["INDEX", {"int": "0"}]]]
+        seq_pool += [random_segs(rng, 4) for _ in range(300 if tier == "quick" else 5000)]
+        for _ in range(3000 if tier == "quick" else 60000):
+            a = rng.choice(seq_pool)
+            b = rng.choice(seq_pool) if rng.random() < 0.8 else [list(x) for x in a]
+            steps = [rng.choice(SEQ_STEPS) for _ in range(rng.randint(1, 4))]
+            seqs.append((a, b, rng.choice(simple), rng.choice(["dot", "fslash"]), steps))
+        jobs += [("SEQ", c) for c in core.chunked(seqs, 32)]
         # (iii) equality on pairs
         pool = [[s] for s in pv] + [random_segs(rng, 3) for _ in range(400 if tier == "quick" else 4000)]
         pairs = []
